@@ -188,4 +188,70 @@ def objective (W : List (List α)) (L : List (List α)) (a : α) (b x : List α)
   normSq (vsub (matVec W x) b) + a * a * normSq (matVec L x)
 
 end
+
+/-! ## Argument representations (which Python objects the entry points accept, transcribed from the code paths)
+
+`invert_sart*` read `geometry_matrix.shape`, bind `double[:]` / `double[:,:]` typed memoryviews (float64, writable,
+right ndim) to the measurement vector, the geometry matrix and the solution, and assign `initial_guess` to an
+`np.ndarray`-typed variable unless it is a `float`/`int` instance; the Laplacian only goes through `np.dot`.
+`invert_regularised_*` read `w_matrix.shape`, compute `alpha * tikhonov_matrix`, and copy everything into fresh float64
+arrays.  `invert_svd` hands `w_matrix` to `pinv` and calls `b_vector.reshape`. -/
+
+inductive Rep where
+  | f64 | f32 | i32 | i64 | bool | list | tuple | fortran | strided | readonly | col
+  deriving Repr, DecidableEq
+
+inductive GRep where
+  | none | pyfloat | pyint | pybool | npf64 | npf32 | npi64 | zerod | arr (r : Rep)
+  deriving Repr, DecidableEq
+
+inductive ARep where
+  | pyfloat | pyint | npf64 | npf32 | zerod
+  deriving Repr, DecidableEq
+
+inductive Status where
+  | ok | valueError | typeError | attributeError
+  deriving Repr, DecidableEq
+
+def Rep.isSeq : Rep → Bool
+  | .list | .tuple => true
+  | _ => false
+
+/-- binding a typed memoryview `double[:]` (or `double[:,:]`) to an argument -/
+def memview : Rep → Status
+  | .list | .tuple => .typeError            -- "a bytes-like object is required"
+  | .f32 | .i32 | .i64 | .bool => .valueError   -- "Buffer dtype mismatch"
+  | .readonly => .valueError                -- "buffer source array is read-only"
+  | .col => .valueError                     -- "Buffer has wrong number of dimensions"
+  | .f64 | .fortran | .strided => .ok
+
+/-- sart.pyx:81-87 -/
+def guessStatus : GRep → Status
+  | .none | .pyfloat | .pyint | .pybool | .npf64 => .ok     -- `isinstance(…, (float, int))`; np.float64 is a float
+  | .npf32 | .npi64 => .typeError                             -- "Cannot convert numpy.float32 to numpy.ndarray"
+  | .zerod => .valueError                                     -- ndarray, but 0-d: memoryview ndim mismatch
+  | .arr r => if r.isSeq then .typeError else memview r
+
+/-- `invert_sart` / `invert_constrained_sart`, in source order (the Laplacian is accepted in every representation) -/
+def sartAccept (rW rb : Rep) (rg : GRep) : Status :=
+  if rW.isSeq then .attributeError                       -- `.shape`
+  else if guessStatus rg ≠ .ok then guessStatus rg
+  else if memview rb ≠ .ok then memview rb
+  else memview rW
+
+/-- `invert_regularised_nnls` / `invert_regularised_lstsq`; `m` = number of measurements -/
+def lsqAccept (m : Nat) (rW : Rep) (ra : ARep) (rL : Option Rep) (rb : Rep) : Status :=
+  if rW.isSeq then .attributeError                       -- `.shape`
+  else if (match rL with
+      -- `alpha * list`: "can't multiply sequence by non-int" for float scalars (Python's and numpy's), a repeated list that
+      -- cannot be indexed `[:, :]` for ints; only a 0-d ndarray alpha converts the sequence
+      | some r => r.isSeq && ra != ARep.zerod
+      | none => false) then .typeError
+  else if rb == Rep.col && m != 1 then .valueError       -- `d_vector[0:m] = b_vector[:]` cannot broadcast (m,1) into (m,)
+  else .ok
+
+/-- `invert_svd` -/
+def svdAccept (_rW rb : Rep) : Status :=
+  if rb.isSeq then .attributeError else .ok              -- `b_vector.reshape`
+
 end Cherab.Inversion
